@@ -34,7 +34,7 @@ Theorem C12_refines_spec : forall mx rs n sc ops,
   wf_net n = true -> 1 <= rs ->
   let len := length (flat n) in
   let '(obs, sf) := run len (bs_init mx rs n sc) ops in
-  spec_holds (flat n) mx (timeouts n) (stimeouts sc) obs (final_view len sf) = true.
+  spec_holds (flat n) mx (intrs n) (sintrs sc) obs (final_view len sf) = true.
 Proof. exact model_refines_spec. Qed.
 Print Assumptions C12_refines_spec.
 
@@ -51,7 +51,23 @@ Example C12_refines_spec_ex :
    OExn MessageTooLong; OBytes [98;98;13;10;99]; ONone; OBytes []; OExn ConnectionClosed]%N.
 Proof. vm_compute. split; reflexivity. Qed.
 
-(* --- chunking independence: a caller that repeats a call after Timeout gets, on any two
+(* socket errors other than time-outs (EWOULDBLOCK on a non-blocking socket, EPIPE, EINTR) after partial
+   progress on either side: received bytes stay buffered, the send buffer holds exactly the unsent rest,
+   a later call/flush completes without losing or repeating a byte *)
+Example C12_socket_error_ex :
+  let '(obs, sf) :=
+    run 5 (bs_init 100 2 [Chunk [97;97]; ErrorEv 11; Chunk [98;10]; ErrorEv 4; Chunk [99]]%N
+                         [SAccept 3; SErrorEv 11; SAccept 0; SErrorEv 32])
+        [Buffer [1;2;3;4;5]%N; Send [6;7;8]%N; RecvUntil [10]%N MUnset false; RecvUntil [10]%N MUnset false;
+         Flush; Flush; Flush; RecvSize 1; RecvSize 1] in
+  map (fun x => (o_out (snd x), o_buf (snd x))) obs =
+  [(ONone, [1;2;3;4;5]); (OExn (OSErr 11), [5;6;7;8]); (OExn (OSErr 11), [97;97]); (OBytes [97;97;98], []);
+   (OExn (OSErr 32), [6;7;8]); (ONone, []); (ONone, []); (OExn (OSErr 4), []); (OBytes [99], [])]%N /\
+  wire sf = [1;2;3;4;5;6;7;8]%N.
+Proof. vm_compute. split; reflexivity. Qed.
+
+(* --- chunking independence: a caller that repeats a call after an interruption
+       (Timeout or socket error) gets, on any two
        networks carrying the same byte stream (any chunkings, any time-outs, any recvsize),
        the same values and the same ConnectionClosed / MessageTooLong ---------------------- *)
 Theorem C12_retry_is_function_of_stream : forall ops s,
@@ -89,7 +105,7 @@ Proof. vm_compute. repeat split; reflexivity. Qed.
        empty only at end of stream (or for size 0); or Timeout with nothing lost ------------- *)
 Theorem C12_recv_prefix : forall s k out s',
   wf_net (nt s) = true -> 1 <= recvsize s -> recv s k = (out, s') ->
-  (out = OExn Timeout /\ remaining s' = remaining s) \/
+  (exists e, out = OExn e /\ is_intr_exn e = true /\ remaining s' = remaining s) \/
   (exists d, out = OBytes d /\ spec_recv_ok (remaining s) k d = true /\
              remaining s' = skipn (length d) (remaining s)).
 Proof. exact recv_prefix. Qed.
@@ -129,7 +145,7 @@ Proof. vm_compute. split; reflexivity. Qed.
 
 (* --- netstrings: read_ns returns exactly the payloads written with write_ns ------------------ *)
 Theorem C12_write_ns_frames : forall wmax sc ps,
-  stimeouts sc = 0 -> Forall (fun p => length p <= wmax) ps ->
+  sintrs sc = [] -> Forall (fun p => length p <= wmax) ps ->
   let '(obs, w) := ns_run true 0 (ns_init wmax [] sc) (map WriteNs ps) in
   wire (ns_bs w) = concat (map frame ps) /\ getsendbuffer (ns_bs w) = [] /\
   map (fun x => o_out (snd x)) obs = map (fun _ => ONone) ps.
